@@ -533,7 +533,7 @@ fn gen_value(u: &mut U, kind: &str) -> Vec<u8> {
             0 => format!("0x{:x}", u.below(16)).into_bytes(),
             1 => format!("0x{:X}", 10 + u.below(6)).into_bytes(),
             2 => format!("0x{:02x}", u.below(256)).into_bytes(),
-            3 => ["0xg", "0x1z", "0x-1", "0x\u{ff11}", "1", "", "0X1", "0x 1", "x"][u.below(9)].as_bytes().to_vec(),
+            3 => ["0xg", "0x1z", "0x-1", "0x\u{ff11}", "1", "", "0X1", "0x 1", "x", "0x", "0x", "0x"][u.below(12)].as_bytes().to_vec(),
             4 => format!("0x{:02X}", u.below(256)).into_bytes(),
             _ => format!("0x{}", ["aB", "Ab", "F", "f0", "0F"][u.below(5)]).into_bytes(),
         },
